@@ -73,8 +73,8 @@ def findings_for(findings: List[dict], prop: str, ob_name: str) -> List[dict]:
 
 def region_holds(region: str, witness: Dict[str, Any], P: Dict[str, Any]) -> bool:
     """Evaluate a known-finding region on a concrete witness."""
-    env = {'P': P}
-    env.update(witness)
+    env = {'P': P, 'w': witness}
+    env.update({k: v for k, v in witness.items() if k.isidentifier()})
     try:
         return bool(eval(region, {'__builtins__': __builtins__}, env))
     except Exception:
